@@ -251,9 +251,8 @@ pub fn is_word(text: &str) -> bool {
 fn find_word_start<'a>(
     char_indices: &mut CharIndices,
 ) -> Option<<CharIndices<'a> as Iterator>::Item> {
-    char_indices
-        .as_str()
-        .starts_with("'n'")
+    let rest = char_indices.as_str();
+    (rest.starts_with("'n'") || rest.starts_with("'N'"))
         .then(|| char_indices.next())
         .unwrap_or_else(|| char_indices.find(|&(_, c)| !is_ignorable_whitespace(c)))
 }
@@ -545,7 +544,10 @@ impl<'a> Lexer<'a> {
     }
 
     fn scan_apostrophe_n_apostrophe(&self, start: usize) -> Option<LexResult<'a>> {
-        self.scan_for_text(start, "'n'", TokenType::ApostropheNApostrophe)
+        // in either letter case, like every other keyword
+        ["'n'", "'N'"]
+            .iter()
+            .find_map(|text| self.scan_for_text(start, text, TokenType::ApostropheNApostrophe))
     }
 
     fn scan_apostrophe_suffix(&self, start: usize) -> Option<LexResult<'a>> {
